@@ -595,6 +595,49 @@ fn pedersen_n<G: Grp, const N: usize>(rng: &mut StdRng, thorough: bool, out: &mu
     }
 }
 
+/// Parameter objects have no memory: a commitment depends on the generators the object holds NOW.  Lifecycle histories
+/// around one object and one thread: use P, overwrite it in place with Q (`clone_from`), use it again; use P1, drop it on
+/// ANOTHER thread, create P2 (same group and length, possibly at the recycled address), use it.
+fn pedersen_lifecycle<G: Grp + Send + 'static, const N: usize>(rng: &mut StdRng, out: &mut Vec<Value>) {
+    let mk = |rng: &mut StdRng| -> (G, Vec<G>, PedersenParameters<G, N>) {
+        let h = G::random(&mut *rng);
+        let gs: Vec<G> = (0..N).map(|_| G::random(&mut *rng)).collect();
+        let mut arr = [G::identity(); N];
+        arr.copy_from_slice(&gs);
+        (h, gs, PedersenParameters::<G, N>::from_generators(h, arr))
+    };
+    let indep_commit = |h: &G, gs: &[G], mv: &[Scalar; N], r: &Scalar| -> G { let mut acc = *h * *r; for i in 0..N { acc += gs[i] * mv[i]; } acc };
+    let mut mv = [Scalar::zero(); N];
+    for i in 0..N { mv[i] = Scalar::random(&mut *rng); }
+    let r = Scalar::random(&mut *rng);
+    let msg = Message::<N>::new(mv);
+    // (1) clone_from
+    {
+        let (h1, g1, mut p) = mk(rng);
+        let (h2, g2, q) = mk(rng);
+        let c1 = msg.commit(&p, bf_of(&r));
+        let ok1 = c1.to_element() == indep_commit(&h1, &g1, &mv, &r) && c1.verify_opening(&p, bf_of(&r), &msg);
+        p.clone_from(&q);
+        let c2 = msg.commit(&p, bf_of(&r));
+        let ok2 = c2.to_element() == indep_commit(&h2, &g2, &mv, &r) && c2.verify_opening(&p, bf_of(&r), &msg);
+        let old_opens = c1.verify_opening(&p, bf_of(&r), &msg);
+        out.push(json!({"ev": "pedersen_lifecycle", "group": G::NAME, "N": N, "history": "use, clone_from another set, use", "before_ok": ok1, "after_ok": ok2,
+                        "old_commitment_opens_under_new_generators": old_opens, "equal_to_source": p == q}));
+    }
+    // (2) drop on another thread, then a new set on this thread
+    for round in 0..6 {
+        let (h1, g1, p1) = mk(rng);
+        let c1 = msg.commit(&p1, bf_of(&r));
+        let ok1 = c1.to_element() == indep_commit(&h1, &g1, &mv, &r);
+        std::thread::spawn(move || drop(p1)).join().expect("dropper");
+        let (h2, g2, p2) = mk(rng);
+        let c2 = msg.commit(&p2, bf_of(&r));
+        let ok2 = c2.to_element() == indep_commit(&h2, &g2, &mv, &r) && c2.verify_opening(&p2, bf_of(&r), &msg);
+        out.push(json!({"ev": "pedersen_lifecycle", "group": G::NAME, "N": N, "history": format!("use, drop on another thread, new set, use (round {})", round), "before_ok": ok1, "after_ok": ok2,
+                        "old_commitment_opens_under_new_generators": c1.verify_opening(&p2, bf_of(&r), &msg), "equal_to_source": true}));
+    }
+}
+
 #[derive(serde::Serialize, serde::Deserialize)]
 #[serde(bound = "G: zkchannels_crypto::SerializeElement")]
 struct Wrap<G: zkchannels_crypto::SerializeElement>(#[serde(with = "zkchannels_crypto::SerializeElement")] G);
@@ -607,6 +650,8 @@ pub fn pedersen(seed: u64, thorough: bool) -> Vec<Value> {
                 let mut out = vec![];
                 pedersen_n::<G1Projective, $n>(&mut rng, thorough, &mut out);
                 pedersen_n::<G2Projective, $n>(&mut rng, thorough, &mut out);
+                pedersen_lifecycle::<G1Projective, $n>(&mut rng, &mut out);
+                pedersen_lifecycle::<G2Projective, $n>(&mut rng, &mut out);
                 out
             })
         };
